@@ -1800,8 +1800,12 @@ func (f *frame) execBlock(b *ssa.BasicBlock, cur *State) {
 						txt = constant.StringVal(c.Value)
 					}
 				}
+				ptype := ""
+				if mi, isMI := x.X.(*ssa.MakeInterface); isMI {
+					ptype = typeStr(mi.X.Type())
+				}
 				for _, mp := range vc.mayPanic(f) {
-					if mp == "*" || (txt != "" && strings.Contains(txt, mp)) {
+					if mp == "*" || (txt != "" && strings.Contains(txt, mp)) || (strings.HasPrefix(mp, "type ") && strings.HasSuffix(ptype, strings.TrimPrefix(mp, "type "))) {
 						ok = true
 					}
 				}
